@@ -260,7 +260,9 @@ fn float(value: Value) -> Result<Value> {
 
 fn dec(value: Value) -> Result<Value> {
     match value.clone() {
-        Value::Int(val) => Ok(Value::Decimal(val.into())),
+        Value::Int(val) => Decimal::try_from_i128_with_scale(val, 0)
+            .map(Value::Decimal)
+            .map_err(|_| Error::invalid_cast(value, "Value::Decimal")),
         Value::Float(val) => Decimal::try_from(val)
             .map(Value::Decimal)
             .map_err(|_| Error::invalid_cast(value, "Value::Float")),
